@@ -230,6 +230,8 @@ class FnTranslator:
             segs = self.path_segs(e)
             if len(segs) == 1 and not segs[0][:1].isupper():
                 return "(EVar %s)" % cs(segs[0])
+            if len(segs) == 1 and self.interior and segs[0] in getattr(self, "const_values", {}):
+                return "(EConst (VNat %d))" % self.const_values[segs[0]]      # a numeric constant of the crate, read from its definition
             if len(segs) == 1 and self.interior and segs[0] in getattr(self, "symbolic_consts", ()):
                 return "(ECon %s [])" % cs("const::" + segs[0])      # a named constant of the crate, kept by name
             if len(segs) == 1 and segs[0].isupper():
@@ -310,6 +312,9 @@ class FnTranslator:
             return "(ECall %s %s)" % (cs(name), args)
         if h == "mcall":
             name = S(e[2])
+            if self.interior and name.replace(" ", "") in ("collect<Vec<_>>",):
+                name = "collect"
+                e = [e[0], e[1], ("str", "collect")] + e[3:]
             if name == "unwrap_or_default" and not getattr(self, "unwrap_default_vec", False):
                 name = self.unwrap_default_name(e[1])
             if name == "into" and self.interior and e[1][0] == "path" and len(e[1]) == 2 and \
@@ -376,6 +381,26 @@ class FnTranslator:
                 return self.filter_map_lifted(e[1][1], e[1][3])
             if self.interior and name == "collect" and len(e) == 3 and e[1][0] == "mcall" and S(e[1][2]) in ("copied", "cloned") and len(e[1]) == 3:
                 return self.expr(["mcall", e[1][1], e[2]])      # `.copied()` / `.cloned()` of an iterator: the same elements
+            if self.interior and name == "collect" and len(e) == 3 and e[1][0] == "mcall" and S(e[1][2]) == "skip" and len(e[1]) == 4:
+                # `xs.skip(N).collect()`: the elements from position N on
+                self.hof_no = getattr(self, "hof_no", 0) + 1
+                n = self.hof_no
+                return ("(EBlock [SLet (PVar \"sk_src%d\") %s; SLet (PVar \"sk_acc%d\") (EArr []); "
+                        "SExpr (EFor \"sk_i%d\" %s (ECall \"len\" [EVar \"sk_src%d\"]) "
+                        "(EBlock [STail (EAssign \"sk_acc%d\" [] (ECall \"push\" [EVar \"sk_acc%d\"; EIndex (EVar \"sk_src%d\") (EVar \"sk_i%d\")]))])); "
+                        "STail (EVar \"sk_acc%d\")])" % (n, self.expr(e[1][1]), n, n, self.expr(e[1][3]), n, n, n, n, n, n))
+            if self.interior and name == "collect" and len(e) == 3 and e[1][0] == "path" and len(e[1]) == 2:
+                return self.expr(e[1])             # an iterator held in a variable, collected: the same elements
+            if self.interior and name == "for_each" and len(e) == 4 and e[3][0] == "closure" and e[1][0] == "mcall" and S(e[1][2]) == "zip" and \
+                    len(e[3][1]) == 2 and e[3][1][1][0] == "ptuple" and len(e[3][1][1]) == 3:
+                # `a.iter().zip(b.iter()).for_each(|(x, y)| BODY)`: BODY for the pairs at equal positions, as far as both reach
+                self.hof_no = getattr(self, "hof_no", 0) + 1
+                n = self.hof_no
+                return ("(EBlock [SLet (PVar \"zip_a%d\") %s; SLet (PVar \"zip_b%d\") %s; "
+                        "SExpr (EFor \"zip_i%d\" (EConst (VNat 0)) (ECall \"min\" [ECall \"len\" [EVar \"zip_a%d\"]; ECall \"len\" [EVar \"zip_b%d\"]]) "
+                        "(EBlock [SLet %s (EIndex (EVar \"zip_a%d\") (EVar \"zip_i%d\")); SLet %s (EIndex (EVar \"zip_b%d\") (EVar \"zip_i%d\")); "
+                        "SExpr %s]))])" % (n, self.expr(e[1][1]), n, self.expr(e[1][3]), n, n, n,
+                                           self.pat(e[3][1][1][1]), n, n, self.pat(e[3][1][1][2]), n, n, self.expr(e[3][2])))
             if self.interior and name == "contains" and len(e) == 4:
                 return "(ECall \"contains\" [%s; %s])" % (self.expr(e[1]), self.expr(e[3]))
             if self.interior and name == "all" and len(e) == 4 and e[3][0] == "closure" and e[1][0] == "mcall" and \
@@ -472,7 +497,7 @@ class FnTranslator:
             # `e?`: the definition of the operator (the error is converted with From::from and returned)
             return ("(EMatch %s [(PCon \"Ok\" [PVar \"try_v\"], EVar \"try_v\"); "
                     "(PCon \"Err\" [PVar \"try_e\"], EReturn (ECon \"Err\" [ECon \"From::from\" [EVar \"try_e\"]]))])" % self.try_operand(e[1]))
-        if h == "diag" and self.interior and getattr(self, "diag_local", False):
+        if h == "diag" and self.interior and (getattr(self, "diag_local", False) or getattr(self, "diag_sink_var", None)):
             # ghost state: the message is appended to the local list `__diags`, which the function returns (see translate_fn)
             return "(EAssign \"__diags\" [] (ECall \"push\" [EVar \"__diags\"; EConst (VStr %s)]))" % cs(S(e[2]) if len(e) > 2 else "")
         if h == "diag" and self.interior and getattr(self, "diag_sink", None):
@@ -508,6 +533,8 @@ class FnTranslator:
             return "EContinue"
         if h == "break":
             return "EBreak"
+        if h == "return" and len(e) == 1 and getattr(self, "mut_self_state", False):
+            return "(EReturn (EVar \"self\"))"       # a method translated by state passing: leaving it early answers the receiver as it is
         if h == "return" and getattr(self, "closure_state", None) is not None:
             return "(EReturn %s)" % self.closure_wrap(self.expr(e[1]) if len(e) > 1 else "(EConst VUnit)")
         if h == "return":
@@ -521,6 +548,8 @@ class FnTranslator:
         if h == "struct":
             name = self.con_name(self.path_segs(e[1]))
             fields, rest = [], "None"
+            if getattr(self, "ghost_diags_field", False) and self.path_segs(e[1]) == ["Self"]:
+                fields.append("(\"__diags\", EVar \"__diags\")")      # the diagnostics emitted while building the object
             for f in e[2:]:
                 if f[0] == "f":
                     fields.append("(%s, %s)" % (cs(S(f[1])), self.expr(f[2])))
@@ -908,13 +937,15 @@ def translate_fn(sx, self_type=None, struct_fields=None, qualified=None, setup=N
     btext = t.block(body)
     if getattr(t, "mut_self_state", False) and dict(params).get("self") == "&mut self":
         # a method that updates its receiver and returns nothing: the updated receiver is the result
-        if "EReturn" in btext:
-            raise TranslateError("fn %s: `return` inside a method translated by state passing" % name)
+        if "EReturn" in btext.replace("(EReturn (EVar \"self\"))", ""):
+            raise TranslateError("fn %s: `return` of a value inside a method translated by state passing" % name)
         btext = "(EBlock [SExpr %s; STail (EVar \"self\")])" % btext
     mps = [pn for pn, pt in params if pn in getattr(t, "mut_params_state", ()) and "&mut" in pt.replace(" ", "")]
     if mps:
         btext = "(EBlock [SLet (PVar \"fn_res\") %s; STail (ECon \"()\" %s)])" % (
             btext, clist(["(EVar \"fn_res\")"] + ["(EVar %s)" % cs(x) for x in mps]))
+    if getattr(t, "diag_sink_var", None):
+        btext = "(EBlock [SLet (PVar \"__diags\") (EArr []); STail %s])" % btext
     if getattr(t, "diag_local", False):
         # a checking function that returns nothing: its diagnostics, in order, are the result
         if "EReturn" in btext:
@@ -1409,6 +1440,48 @@ def translate_fields():
         FOREIGN.update(saved)
 
 
+def translate_reply_data_logic():
+    """contract/communication/reply.rs: `ReplyData::new` (what one handler contributes to its reply id) and `ReplyData::merge`
+    (a second handler of the same id). `merge(&mut self, ..)` by state passing; diagnostics as ghost state (a field
+    `__diags` of the object)."""
+    rel = "contract/communication/reply.rs"
+    path = os.path.join(common.REPO, "sylvia-derive", "src", *rel.split("/"))
+    kv = fetch_ast(path)
+    mc = re.search(r"const\s+NUMBER_OF_ALLOWED_DATA_FIELDS\s*:\s*usize\s*=\s*(\d+)\s*;", open(path).read())
+    if not mc:
+        raise TranslateError("%s: const NUMBER_OF_ALLOWED_DATA_FIELDS not found" % rel)
+    consts = {"NUMBER_OF_ALLOWED_DATA_FIELDS": int(mc.group(1))}
+
+    def common_setup(t):
+        t.interior = True
+        t.const_values = consts
+        t.accessor_methods = {"fields", "msg_attr", "reply_on", "function_name", "ty"}
+        t.externals = {"as_data_field", "validate_fields_attributes", "is_payload_marked"}
+
+    def setup_new(t):
+        common_setup(t)
+        t.diag_local = False
+        t.ghost_diags_field = True
+        t.diag_sink_var = "__diags"
+
+    def setup_merge(t):
+        common_setup(t)
+        t.mut_self_state = True
+        t.diag_sink = "self"
+    saved = dict(FOREIGN)
+    FOREIGN["assert_no_redundant_params"] = "call:extern::assert_no_redundant_params"
+    FOREIGN["ReplyData::new"] = "call:ReplyData::new"
+    try:
+        known = {"extern::as_data_field", "extern::validate_fields_attributes", "extern::is_payload_marked",
+                 "extern::assert_no_redundant_params", "ReplyData::new", "push", "len", "min", "is_empty", "is_some", "is_none"}
+        out = translate_methods(rel, {"ReplyData": ["new"]}, setup=setup_new, kv=kv, extra_known=known)
+        out += translate_methods(rel, {"ReplyData": ["merge"]}, setup=setup_merge, kv=kv, extra_known=known)
+        return out
+    finally:
+        FOREIGN.clear()
+        FOREIGN.update(saved)
+
+
 def translate_checks():
     """sylvia-derive/src/parser/mod.rs: `assert_new_method_defined` - the constructor `new` a contract needs. The function
     returns nothing; its diagnostics, in order, are the result of the translation."""
@@ -1674,6 +1747,10 @@ def generate():
     except (TranslateError, KeyError, IndexError, ValueError, TypeError, AttributeError) as e:
         fieldfns, _ = [], errors.append("macro logic (fields: types/msg_field.rs, parser/mod.rs process_fields): %s" % e)
     try:
+        replydatafns = translate_reply_data_logic()
+    except (TranslateError, KeyError, IndexError, ValueError, TypeError, AttributeError) as e:
+        replydatafns, _ = [], errors.append("macro logic (reply table: contract/communication/reply.rs ReplyData): %s" % e)
+    try:
         foldfns = translate_fold()
     except (TranslateError, KeyError, IndexError, ValueError, TypeError, AttributeError) as e:
         foldfns, _ = [], errors.append("macro logic (fold.rs StripInput): %s" % e)
@@ -1756,6 +1833,9 @@ def generate():
         "GenImpFields.v": gen_file("the fields of a message variant (types/msg_field.rs, parser/mod.rs process_fields)", [
             "(* MsgField::new / emit / emit_pub, process_fields and the closure of its filter_map *)",
             "Definition field_fns : program :=", prog(fieldfns)]),
+        "GenImpReplyData.v": gen_file("what a handler contributes to its reply id (contract/communication/reply.rs: ReplyData)", [
+            "(* ReplyData::new, ReplyData::merge (state passing; diagnostics in the ghost field __diags) *)",
+            "Definition replydata_fns : program :=", prog(replydatafns)]),
         "GenImpBridge.v": gen_file("the contract-level message (types/interfaces.rs, types/msg_type.rs, contract/communication/wrapper_msg.rs)", [
             "(* Interfaces::emit_*, MsgType::emit_ctx_dispatch_values, GlueMessage::emit *)",
             "Definition bridge_fns : program :=", prog(bridge)])}
